@@ -130,17 +130,18 @@ def reaching_def(name: str, at: ast.AST) -> ast.AST | None:
     return None
 
 
-def expand(e: ast.AST, at: ast.AST | None = None, depth: int = 4) -> ast.AST:
-    """Substitute straight-line local definitions into ``e`` (copy; original untouched)."""
+def expand(e: ast.AST, at: ast.AST | None = None, depth: int = 4, stop: Iterable[str] = ()) -> ast.AST:
+    """Substitute straight-line local definitions into ``e`` (copy; original untouched).
+    Names in ``stop`` are kept opaque."""
     at = at if at is not None else e
-    return _expand_lockstep(e, at, depth)
+    return _expand_lockstep(e, at, depth, frozenset(), frozenset(stop))
 
 
-def _expand_lockstep(e: ast.AST, at: ast.AST, depth: int, bound: frozenset = frozenset()) -> ast.AST:
-    if isinstance(e, ast.Name) and isinstance(e.ctx, ast.Load) and depth > 0 and e.id not in bound:
+def _expand_lockstep(e: ast.AST, at: ast.AST, depth: int, bound: frozenset = frozenset(), stop: frozenset = frozenset()) -> ast.AST:
+    if isinstance(e, ast.Name) and isinstance(e.ctx, ast.Load) and depth > 0 and e.id not in bound and e.id not in stop:
         d = reaching_def(e.id, at)
         if d is not None and not isinstance(d, (ast.Await, ast.Yield, ast.YieldFrom)):
-            return _expand_lockstep(d, d, depth - 1)
+            return _expand_lockstep(d, d, depth - 1, frozenset(), stop)
         return ast.Name(id=e.id, ctx=ast.Load())
     if isinstance(e, ast.Lambda):
         bound = bound | {a.arg for a in e.args.args + e.args.kwonlyargs + e.args.posonlyargs}
@@ -152,9 +153,9 @@ def _expand_lockstep(e: ast.AST, at: ast.AST, depth: int, bound: frozenset = fro
     new = copy.copy(e)
     for fld, val in ast.iter_fields(e):
         if isinstance(val, ast.AST):
-            setattr(new, fld, _expand_lockstep(val, at, depth, bound))
+            setattr(new, fld, _expand_lockstep(val, at, depth, bound, stop))
         elif isinstance(val, list):
-            setattr(new, fld, [(_expand_lockstep(v, at, depth, bound) if isinstance(v, ast.AST) else v) for v in val])
+            setattr(new, fld, [(_expand_lockstep(v, at, depth, bound, stop) if isinstance(v, ast.AST) else v) for v in val])
     return new
 
 
